@@ -132,6 +132,10 @@ func Build(thorough bool) *World {
 	cb := P.Reward[11]
 	tC := Spend(w.KA, []labnet.Out{cb}, []*types.TxOutput{btm(cb.Amount()-labnet.Fee, w.KB.Prog)})
 	cw.AddBlock(a4, "a5", labnet.BlockOpt{Txs: []*types.Tx{tC}}) // height 21: the reward of block 11 is mature exactly here
+	// a sibling branch of a5 that outgrows it: un-spends the coinbase at a height where it is mature; a later
+	// justified rollback to the short branch b makes it immature again
+	d5 := cw.AddBlock(a4, "d5", labnet.BlockOpt{Tag: 3})
+	cw.AddBlock(d5, "d6", labnet.BlockOpt{Tag: 3})
 	b1 := cw.AddBlock(0, "b1", labnet.BlockOpt{Tag: 1})
 	w.b2 = cw.AddBlock(b1, "b2", labnet.BlockOpt{Tag: 1})
 	c3 := cw.AddBlock(w.a2, "c3", labnet.BlockOpt{Tag: 2})
